@@ -319,7 +319,27 @@ func parse(line string) (buf bool, batches [][]int, decisions []string, ok bool)
 	return
 }
 
+// handle runs the script twice, on two successive actors, in the small-pool regime: the second run's
+// messages travel in ReceiveContext objects the first run's deliveries (and Stash calls) used. Both runs
+// must give the same observations; the second is reported (a difference = `UNSTABLE …`), so a failure that
+// needs recycled contexts is reproducible from the single case line.
 func handle(line string) string {
+	// first run on an EMPTY pool (every context is freshly allocated); afterwards the pool holds exactly
+	// the contexts this run recycled, in order. Dropping the oldest one (the mailbox's initial sentinel)
+	// aligns the second run's Tells with the contexts that carried the same messages in the first run.
+	actor.VerifC13PoolKeepLast(0)
+	first := runOnce(line)
+	if first == "bad-case" || strings.HasPrefix(first, "HANG") || strings.HasPrefix(first, "RUNAWAY") || strings.HasPrefix(first, "LOST") {
+		return first
+	}
+	second := runOnce(line)
+	if second != first {
+		return "UNSTABLE first=" + first + " again=" + second
+	}
+	return second
+}
+
+func runOnce(line string) string {
 	buf, batches, decisions, ok := parse(line)
 	if !ok {
 		return "bad-case"
